@@ -22,6 +22,7 @@ package gen
 //@   modifies nothing
 
 //@ iface Field.Add
+//@   free-requires fieldInv(self)
 //@   modifies allheaps
 
 //@ template T in Int32 Int64 Uint32 Uint64 Float32 Float64 String
@@ -92,14 +93,31 @@ package gen
 //@ loop maxDef#1
 //@   invariant true
 
-//@ template T in Int32 Int64 Uint32 Uint64 Float32 Float64 Bool String
+//@ template T in Int32:int32 Int64:int64 Uint32:uint32 Uint64:uint64 Float32:float32 Float64:float64
 //@ func New{T}Field
 //@   modifies nothing
 //@   ensures res != nil && freshsince(res)
+//@   ensures[C12] okStats_{T1}(res.stats)
 //@ func New{T}OptionalField
 //@   modifies nothing
 //@   ensures res != nil && freshsince(res)
+//@   ensures[C12] okOptStats_{T1}(res.stats)
 //@ end template
+//@ func NewStringField
+//@   modifies nothing
+//@   ensures res != nil && freshsince(res)
+//@   ensures[C12] okStr(res.stats) && !res.stats.has
+//@ func NewStringOptionalField
+//@   modifies nothing
+//@   ensures res != nil && freshsince(res)
+//@   ensures[C12] okStr(res.stats) && !res.stats.has
+//@ func NewBoolField
+//@   modifies nothing
+//@   ensures res != nil && freshsince(res)
+//@ func NewBoolOptionalField
+//@   modifies nothing
+//@   ensures res != nil && freshsince(res)
+//@   ensures[C12] res.stats != nil
 
 //@ func NewParquetWriter
 //@   requires external(w)
@@ -353,6 +371,27 @@ package gen
 //@ func (*boolOptionalStats).Max
 //@   modifies nothing
 //@   ensures[C12] ref(res) == 0
+
+
+// ---- object invariant of the field types: each holds a well-formed statistics accumulator.
+// It is established by the generated constructors (checked) and assumed at
+// method entry (free-requires): the containers that carry field objects
+// between calls are not tracked.
+//@ pred fieldInv(x) := (dyn(x) == typeid("*GEN.Int32Field") ==> okStats_int32(cast("*GEN.Int32Field", x).stats))
+//@   && (dyn(x) == typeid("*GEN.Int32OptionalField") ==> okOptStats_int32(cast("*GEN.Int32OptionalField", x).stats))
+//@   && (dyn(x) == typeid("*GEN.Int64Field") ==> okStats_int64(cast("*GEN.Int64Field", x).stats))
+//@   && (dyn(x) == typeid("*GEN.Int64OptionalField") ==> okOptStats_int64(cast("*GEN.Int64OptionalField", x).stats))
+//@   && (dyn(x) == typeid("*GEN.Uint32Field") ==> okStats_uint32(cast("*GEN.Uint32Field", x).stats))
+//@   && (dyn(x) == typeid("*GEN.Uint32OptionalField") ==> okOptStats_uint32(cast("*GEN.Uint32OptionalField", x).stats))
+//@   && (dyn(x) == typeid("*GEN.Uint64Field") ==> okStats_uint64(cast("*GEN.Uint64Field", x).stats))
+//@   && (dyn(x) == typeid("*GEN.Uint64OptionalField") ==> okOptStats_uint64(cast("*GEN.Uint64OptionalField", x).stats))
+//@   && (dyn(x) == typeid("*GEN.Float32Field") ==> okStats_float32(cast("*GEN.Float32Field", x).stats))
+//@   && (dyn(x) == typeid("*GEN.Float32OptionalField") ==> okOptStats_float32(cast("*GEN.Float32OptionalField", x).stats))
+//@   && (dyn(x) == typeid("*GEN.Float64Field") ==> okStats_float64(cast("*GEN.Float64Field", x).stats))
+//@   && (dyn(x) == typeid("*GEN.Float64OptionalField") ==> okOptStats_float64(cast("*GEN.Float64OptionalField", x).stats))
+//@   && (dyn(x) == typeid("*GEN.StringField") ==> okStr(cast("*GEN.StringField", x).stats))
+//@   && (dyn(x) == typeid("*GEN.StringOptionalField") ==> okStr(cast("*GEN.StringOptionalField", x).stats))
+//@   && (dyn(x) == typeid("*GEN.BoolOptionalField") ==> cast("*GEN.BoolOptionalField", x).stats != nil)
 
 // ---- reader (C10: a failed Read/Seek surfaces as an error)
 
